@@ -11,16 +11,19 @@ EXTENDS ControlRefresh, Json, IOUtils
 
 Scripts == JsonDeserialize(IOEnv.TRACE_FILE)
 
-VARIABLES sid, l
+VARIABLES sid, l, script      \* script = Scripts[sid], read once (TLC re-reads the file on every reference to Scripts)
 
 SnapOf(j) == [local  |-> [loc |-> j.local.loc, tok |-> j.local.tok],
               info   |-> [p \in Peers |-> [loc |-> j.info[p].loc, tok |-> j.info[p].tok]],
               shape  |-> [p \in Peers |-> j.shape[p]],
               ctlDup |-> j.ctlDup]
 
-ScriptInit == sid \in 1..Len(Scripts) /\ l = 1 /\ Init
-ScriptNext == /\ l <= Len(Scripts[sid])
-              /\ Refresh(SnapOf(Scripts[sid][l].snap), Scripts[sid][l].force)
+ScriptInit == /\ sid \in 1..Len(Scripts)
+              /\ script = Scripts[sid]
+              /\ l = 1
+              /\ Init
+ScriptNext == /\ l <= Len(script)
+              /\ Refresh(SnapOf(script[l].snap), script[l].force)
               /\ l' = l + 1
-              /\ UNCHANGED sid
+              /\ UNCHANGED <<sid, script>>
 =============================================================================
